@@ -167,13 +167,14 @@ type sys struct {
 	attaching *stream
 	conn      int
 
-	ver      map[string]int // active's current version per id (0 = absent)
-	nextVer  int
-	msgs     []*msgDesc // every change pushed so far, in push order
-	pending  []*msgDesc // mirror of the active's pendingChanges queue
-	prevPush *msgDesc   // the change pushed by the immediately preceding operation (nil if that was not a plain push)
-	attachAt int        // number of changes pushed before the current stream attached
-	faults   int
+	ver       map[string]int // active's current version per id (0 = absent)
+	nextVer   int
+	msgs      []*msgDesc // every change pushed so far, in push order
+	pending   []*msgDesc // mirror of the active's pendingChanges queue
+	overtaken int        // number of ~overtakes pushes so far
+	prevPush  *msgDesc   // the change pushed by the immediately preceding operation (nil if that was not a plain push)
+	attachAt  int        // number of changes pushed before the current stream attached
+	faults    int
 
 	viols []explore.Viol
 }
@@ -310,7 +311,8 @@ func (s *sys) Ops() []string {
 		}
 		ops = append(ops, push...)
 		// concurrent with the previous push (of another session, still queued): may overtake it in the queue
-		if pp := s.prevPush; pp != nil && pp.id != sid(i) && pp.fate == "" && len(s.pending) > 0 && s.pending[len(s.pending)-1] == pp {
+		// (at most one overtaking pair per history, like the single transport fault)
+		if pp := s.prevPush; s.overtaken == 0 && pp != nil && pp.id != sid(i) && pp.fate == "" && len(s.pending) > 0 && s.pending[len(s.pending)-1] == pp {
 			for _, o := range push {
 				ops = append(ops, o+"~overtakes")
 			}
@@ -383,6 +385,7 @@ func (s *sys) Apply(op string) string {
 				harnessError("~overtakes: real queue has fewer than two entries")
 			}
 			s.pending[n-1], s.pending[n-2] = s.pending[n-2], s.pending[n-1]
+			s.overtaken++
 		}()
 	}
 	switch {
@@ -682,7 +685,7 @@ func (s *sys) Fingerprint() string {
 		rec = append(rec, *r)
 	}
 	dump("R", rec)
-	fmt.Fprintf(&sb, "ph=%d pushed=%d nextVer=%d faults=%d prev=%v attachAt=%d pend=[", s.phase, len(s.msgs), s.nextVer, s.faults, s.prevPush != nil, s.attachAt)
+	fmt.Fprintf(&sb, "ph=%d pushed=%d nextVer=%d faults=%d overtaken=%d prev=%v attachAt=%d pend=[", s.phase, len(s.msgs), s.nextVer, s.faults, s.overtaken, s.prevPush != nil, s.attachAt)
 	for _, m := range s.pending {
 		fmt.Fprintf(&sb, "%d:%s:%s:%d,", m.n, m.typ, m.id, m.ver)
 	}
@@ -782,7 +785,7 @@ func models(t *testing.T, run *report.Run) []*explore.Model {
 		ms = append(ms, &explore.Model{
 			Name: "ha.HASyncer-pair", Config: fmt.Sprintf("ids=%d attached=%v", c.ids, c.attached),
 			New:   func() explore.System { return newSys(c) },
-			Depth: depth, NoDedupDepth: nd, Classify: classify, Budget: 8 * time.Minute,
+			Depth: depth, NoDedupDepth: nd, Classify: classify, Budget: 10 * time.Minute,
 			Exec: func(body func()) { synctest.Test(t, func(*testing.T) { body() }) },
 		})
 	}
